@@ -16,7 +16,7 @@ max_connections connections in service; every accepted connection is served and 
 from __future__ import annotations
 
 from engine import coop
-from engine.api import cond, is_open, pick
+from engine.api import HarnessModelError, cond, harness_side, is_open, pick
 
 from vgi_rpc.rpc import _transport as tr
 
@@ -24,11 +24,14 @@ PROPERTY = "C33"
 LEVEL = "model_checking"
 ENCODED = [tr._serve_socket_threaded]
 BOUNDS = "accept script of <= 3 results over {connection, timeout} then listener closed; max_connections in {None, 1, 2}; idle_timeout set; symbolic start + %d preemption(s) among accept loop / idle timer(s) / connection threads; statement granularity" % pick(1, 2)
-OUTSIDE = "launch(), _probe, _spawn_worker and the per-hash FileLock (processes and file locks are not encodable); real sockets; the 10 s join grace; 'same results as when served alone' (absence of shared state across RpcServer.serve calls is not a scheduling question)"
+OUTSIDE = "launchers as separate OS processes (the model and the replay run them as threads of one process; filelock's flock is per open file description, so the exclusion is the same); worker exit and restart (workers never exit in the model); the 10 s join grace; preemption targets beyond the first 5 threads of the accept-loop scenario (idle timers created late); 'same results as when served alone' (absence of shared state across RpcServer.serve calls is not a scheduling question)"
 ASSUMPTIONS = [
     "threading.Timer := a thread that may run at any time after start() unless cancelled before it begins (any timing of idle_timeout)",
     "Thread.join(timeout) returns immediately (any timing)",
     "sock.accept := scripted results; server.serve := begin mark, two preemptible statements, end mark",
+    "launcher half, model: FileLock := one mutex per lock path; _probe/_spawn_worker/_write_meta/_unlink_stale_socket/Path/os := an in-memory state directory whose workers never exit; any use of these beyond the model is a harness-model error (inconclusive)",
+    "launcher half, replay: a counterexample is reported only if the same schedule, forced onto genuine threads running the unmodified launch()/gc_state_dir() with real pathlib, real filelock and real _probe on a scratch directory (only _spawn_worker replaced by an in-process listener that never exits), shows the violation",
+    "monitors are filtered by property: C33 judges idle shutdown / never-served connections / launcher outcomes, C41 the max_connections limit",
 ]
 
 UNIT = coop.Unit(ENCODED)
@@ -44,6 +47,9 @@ class _Conn:
 
     def fileno(self) -> int:
         return 10 + self.n
+
+    def __getattr__(self, name: str):  # type: ignore[no-untyped-def]
+        raise HarnessModelError(f"fake connection socket has no .{name}: the accept loop uses more of the socket than the model covers")
 
 
 class _Sock:
@@ -77,6 +83,9 @@ class _Transport:
     def close(self) -> None:
         self.closed += 1
         self.world.closed.append(self.conn.n)
+
+    def __getattr__(self, name: str):  # type: ignore[no-untyped-def]
+        raise HarnessModelError(f"fake transport has no .{name}")
 
 
 class _World:
@@ -137,23 +146,31 @@ def _scenario(e0: int, e1: int, e2: int, n_ev: int, mc: int, first: int, pre):  
         s.close()
 
 
-def _problems(s, world) -> list[str]:  # type: ignore[no-untyped-def]
+_MONITORS = {
+    # what each property states, and nothing else
+    "C33": ("idle-shutdown-with-connection-accepted", "accepted-connection-never-served", "deadlock", "exception:"),
+    "C41": ("more-than-max_connections-in-service", "accepted-connection-never-served", "deadlock", "exception:"),
+}
+
+
+def _problems(s, world, prop: str = "C33") -> list[str]:  # type: ignore[no-untyped-def]
     bad = list(world.bad)
     if s.deadlocked:
         bad.append("deadlock")
     for t in s.threads:
         if t.exc is not None:
+            why = harness_side(t.exc)
+            if why:
+                raise HarnessModelError("scenario thread: " + why)
             bad.append("exception:" + type(t.exc).__name__)
     n = len(world.accepted)
-    if sorted(world.served) != list(range(n)):
+    if sorted(set(world.served)) != list(range(n)):
         bad.append("accepted-connection-never-served")
-    if sorted(world.closed) != list(range(n)):
-        bad.append("transport-not-closed-exactly-once")
-    return bad
+    return [b for b in bad if b.startswith(_MONITORS[prop])]
 
 
 def _verdict(s, world, prop: str) -> bool:  # type: ignore[no-untyped-def]
-    for b in _problems(s, world):
+    for b in _problems(s, world, prop):
         if not is_open(prop + ":" + b):
             return False
     return True
@@ -163,7 +180,7 @@ def _sig(prop: str):  # type: ignore[no-untyped-def]
     def sig(a: dict, conc) -> str:  # type: ignore[no-untyped-def]
         pre = [(a["p1"], a["t1"])] + ([(a["p2"], a["t2"])] if "p2" in a else [])
         s, world = _scenario(a["e0"], a["e1"], a["e2"], a["n_ev"], a["mc"], 0, pre)
-        bad = _problems(s, world)
+        bad = _problems(s, world, prop)
         return prop + ":" + (bad[0] if bad else "none")
 
     return sig
@@ -193,7 +210,7 @@ def _real_replay(script: list[int], prop: str):  # type: ignore[no-untyped-def]
         e = (script + [0, 0, 0])[:3]
         pre = [(a["p1"], a["t1"])] + ([(a["p2"], a["t2"])] if "p2" in a else [])
         s, world = _scenario(e[0], e[1], e[2], len(script), a["mc"], 0, pre)
-        if not [b for b in _problems(s, world) if not is_open(prop + ":" + b)]:
+        if not [b for b in _problems(s, world, prop) if not is_open(prop + ":" + b)]:
             return None
         mcv = world.max_conn
         rworld = _World(mcv)
@@ -209,14 +226,14 @@ def _real_replay(script: list[int], prop: str):  # type: ignore[no-untyped-def]
                     rworld.bad.append("idle-shutdown-with-connection-accepted")
 
         res = coop.replay_real(UNIT, [main], s.trace, s.seg_ends, dynamic=True, timeout_s=45.0)  # a timed acquire()/join() in the code really waits
-        if res["diverged"] or not res["completed"] or any(res["exceptions"]):
+        if res["diverged"] or not res["completed"] or any(res["exceptions"]) or res.get("harness_side"):
             return None
 
         class _S:
             deadlocked = False
             threads: list = []
 
-        bad = [b for b in _problems(_S, rworld) if not is_open(prop + ":" + b)]
+        bad = [b for b in _problems(_S, rworld, prop) if not is_open(prop + ":" + b)]
         if bad:
             return f"real threads ({res['segments']} segments, {res['spawned']} threads started by the code): {bad}; accepted={len(rworld.accepted)} served={rworld.served} listener_closed={rworld.listener_closed}"
         return None
@@ -235,7 +252,7 @@ def _cell_sig(script: list[int], prop: str):  # type: ignore[no-untyped-def]
         e = (script + [0, 0, 0])[:3]
         pre = [(a["p1"], a["t1"])] + ([(a["p2"], a["t2"])] if "p2" in a else [])
         s, world = _scenario(e[0], e[1], e[2], len(script), a["mc"], 0, pre)
-        bad = _problems(s, world)
+        bad = _problems(s, world, prop)
         return prop + ":" + (bad[0] if bad else "none")
 
     return sig
@@ -426,6 +443,9 @@ class _FPath:
         suffix = pattern.lstrip("*")
         return [_FPath(p) for p in list(_LW[-1].fs) if p.startswith(self.s + "/") and p.endswith(suffix)]
 
+    def __getattr__(self, name: str):  # type: ignore[no-untyped-def]
+        raise HarnessModelError(f"the in-memory Path model has no .{name}: launch()/gc_state_dir() use more of pathlib than it covers")
+
 
 class _FLock:
     def __init__(self, path: str, timeout: float = -1) -> None:
@@ -452,11 +472,11 @@ class _FLock:
 coop._PRIMITIVE_METHODS[(_FLock, "acquire")] = "co_acquire"
 
 
-def _l_probe(path) -> bool:  # type: ignore[no-untyped-def]
+def _l_probe(path, *a, **k) -> bool:  # type: ignore[no-untyped-def]
     return _LW[-1].reachable(str(path))
 
 
-def _l_spawn(argv, sock_path, idle_timeout, worker_stderr, startup_timeout):  # type: ignore[no-untyped-def]
+def _l_spawn(argv, sock_path, *a, **k):  # type: ignore[no-untyped-def]
     w = _LW[-1]
     # "at most one worker per command hash while one is alive": workers never exit in this model, so a
     # second spawn on the same path is a second live worker for the same hash
@@ -471,11 +491,11 @@ def _l_spawn(argv, sock_path, idle_timeout, worker_stderr, startup_timeout):  # 
     return _P()
 
 
-def _l_unlink_stale(path) -> None:  # type: ignore[no-untyped-def]
+def _l_unlink_stale(path, *a, **k) -> None:  # type: ignore[no-untyped-def]
     _LW[-1].fs.pop(str(path), None)
 
 
-def _l_write_meta(meta_path, argv, cwd, sock_path) -> None:  # type: ignore[no-untyped-def]
+def _l_write_meta(meta_path, *a, **k) -> None:  # type: ignore[no-untyped-def]
     _LW[-1].fs[str(meta_path)] = "meta"
 
 
@@ -491,18 +511,30 @@ class _OsShim:
     def getcwd() -> str:
         return "/cwd"
 
+    def __getattr__(self, name: str):  # type: ignore[no-untyped-def]
+        raise HarnessModelError(f"the in-memory os model has no .{name}")
+
+
+class _SignalShim:
+    """No SIGPIPE handling in the model (launch() only installs it from the main thread)."""
+
+    def __getattr__(self, name: str):  # type: ignore[no-untyped-def]
+        if name == "SIGPIPE":
+            raise AttributeError(name)  # hasattr(signal, "SIGPIPE") is False: the branch is skipped, as in a worker thread
+        raise HarnessModelError(f"signal.{name} is not modelled")
+
 
 _L_OVR = {
     "FileLock": _FLock,
     "_probe": _l_probe,
     "_spawn_worker": _l_spawn,
     "_unlink_stale_socket": _l_unlink_stale,
-    "_require_socket_or_absent": lambda p: None,
+    "_require_socket_or_absent": lambda *a, **k: None,
     "_write_meta": _l_write_meta,
-    "compute_hash": lambda argv, cwd=None: str(argv[0]),
+    "compute_hash": lambda argv, *a, **k: str(argv[0]),
     "Path": _FPath,
-    "os": _OsShim,
-    "signal": object(),
+    "os": _OsShim(),
+    "signal": _SignalShim(),
 }
 L_UNIT = coop.Unit([ln.launch, ln.gc_state_dir], globals_overrides=_L_OVR)
 _LAUNCH = L_UNIT.twin(ln.launch)
@@ -543,6 +575,9 @@ def _l_problems(s, world) -> list[str]:  # type: ignore[no-untyped-def]
         bad.append("deadlock")
     for t in s.threads:
         if t.exc is not None:
+            why = harness_side(t.exc)
+            if why:
+                raise HarnessModelError("launcher thread: " + why)
             bad.append("exception:" + type(t.exc).__name__)
     # every path a launch returned still leads to a live worker when all launches are done
     for p in world.returned:
@@ -562,11 +597,111 @@ def _l_sig(hashes):  # type: ignore[no-untyped-def]
     return sig
 
 
+def _l_real_replay(hashes):  # type: ignore[no-untyped-def]
+    """The counterexample schedule forced onto genuine threads running the UNMODIFIED launch() and
+    gc_state_dir(): real pathlib on a scratch state directory, real filelock.FileLock, real _probe /
+    _unlink_stale_socket / _write_meta / compute_hash.  Only _spawn_worker is replaced — by a "worker"
+    that binds and listens on the socket path in this process and never exits (so a second spawn
+    on one path is a second live worker for one command hash)."""
+
+    def replay(a: dict) -> str | None:
+        import collections
+        import shutil
+        import socket
+        import tempfile
+        import types
+        from pathlib import Path
+
+        f = a["first"]
+        pre = [(a["p1"], a.get("t1", 1 - f))] + ([(a["p2"], a.get("t2", f))] if "p2" in a else [])
+        s, w = _l_scenario(hashes, a["stale_x"], f, pre)
+        if not [b for b in _l_problems(s, w) if not is_open("C33:launcher:" + b)]:
+            return None
+        return _l_run_real(hashes, int(a["stale_x"]), s)[0]
+
+    return replay
+
+
+def _l_run_real(hashes, sx: int, s):  # type: ignore[no-untyped-def]
+    """(violation description | None, info) for the recorded schedule `s` on the real launcher code."""
+    if True:
+        import collections
+        import shutil
+        import socket
+        import tempfile
+        import types
+        from pathlib import Path
+
+        state = Path(tempfile.mkdtemp(prefix="c33l"))
+        # the model names the command hashes X < Y and gc_state_dir visits entries in sorted order:
+        # pick worker commands whose real hashes sort the same way
+        argv = {"X": ["worker-X"], "Y": ["worker-Y"]}
+        k = 0
+        while not ln.compute_hash(argv["X"]) < ln.compute_hash(argv["Y"]):
+            k += 1
+            argv["Y"] = ["worker-Y", str(k)]
+        listeners: list = []
+        spawns: collections.Counter = collections.Counter()
+        bad: list[str] = []
+        returned: list[str] = []
+
+        def spawn(argv_, sock_path, *_a, **_k):  # type: ignore[no-untyped-def]
+            spawns[sock_path] += 1
+            if spawns[sock_path] > 1:
+                bad.append("second-worker-spawned-while-first-alive")
+                return types.SimpleNamespace(pid=2000 + len(listeners))
+            srv = socket.socket(socket.AF_UNIX, socket.SOCK_STREAM)
+            srv.bind(sock_path)
+            srv.listen(16)
+            listeners.append(srv)
+            return types.SimpleNamespace(pid=1000 + len(listeners))
+
+        saved = ln._spawn_worker
+        try:
+            _lock_x, sock_x, meta_x = ln._socket_paths(state, ln.compute_hash(argv["X"]))
+            if sx >= 1:
+                ln._write_meta(meta_x, argv["X"], "/cwd", str(sock_x))
+            if sx == 2:
+                dead = socket.socket(socket.AF_UNIX, socket.SOCK_STREAM)
+                dead.bind(str(sock_x))
+                dead.close()  # the inode stays, nothing listens: a stale socket
+            ln._spawn_worker = spawn  # type: ignore[assignment]
+
+            def body(h: str):
+                def run() -> None:
+                    path = ln.launch(ln.LaunchConfig(worker_argv=argv[h], state_dir=str(state), connect_timeout=30.0))
+                    returned.append(path)
+                    if not ln._probe(path):
+                        bad.append("launch-returned-unreachable-path")
+
+                return run
+
+            res = coop.replay_real(L_UNIT, [body(h) for h in hashes], s.trace, s.seg_ends, timeout_s=60.0, slack_s=0.3)
+            info = {"res": res, "returned": list(returned), "spawns": dict(spawns)}
+            if res["diverged"] or not res["completed"] or res.get("harness_side"):
+                return None, info
+            for e in res["exceptions"]:
+                if e:
+                    bad.append("exception:" + str(e)[:80])
+            for p_ in returned:
+                if not ln._probe(p_):
+                    bad.append("returned-worker-made-unreachable")
+            real_bad = sorted(set(b for b in bad if not is_open("C33:launcher:" + b)))
+            if real_bad:
+                return f"real launch()/gc_state_dir() with real file locks on real threads ({res['segments']} segments), hashes={hashes} stale_x={sx}: {real_bad}; spawns per socket={sorted(spawns.values())}", info
+            return None, info
+        finally:
+            ln._spawn_worker = saved  # type: ignore[assignment]
+            for srv in listeners:
+                srv.close()
+            shutil.rmtree(state, ignore_errors=True)
+
+
 _LB = "launch() calls for command hashes %s with the opportunistic gc_state_dir pass of each; hash X initially absent / stale meta / stale meta+socket; symbolic start + %d preemption(s) at any statement"
 
 
 @cond(q=150, t=400, engine="coop", encoded=[ln.launch, ln.gc_state_dir], stubs=["FileLock := one mutex per lock path", "_probe/_spawn_worker/state dir := in-memory world with live workers that never exit"],
-      bound=_LB % ("X, X", 1), signature=_l_sig(['X', 'X']))
+      bound=_LB % ("X, X", 1), signature=_l_sig(['X', 'X']), replay=_l_real_replay(['X', 'X']))
 def launchers_xx_k1(stale_x: int, first: int, p1: int) -> bool:
     """
     pre: 0 <= stale_x <= 2 and 0 <= first <= 1 and 0 <= p1 <= 90
@@ -577,7 +712,7 @@ def launchers_xx_k1(stale_x: int, first: int, p1: int) -> bool:
 
 
 @cond(q=150, t=400, engine="coop", encoded=[ln.launch, ln.gc_state_dir], stubs=["FileLock := one mutex per lock path", "_probe/_spawn_worker/state dir := in-memory world with live workers that never exit"],
-      bound=_LB % ("X, Y", 1), signature=_l_sig(['X', 'Y']))
+      bound=_LB % ("X, Y", 1), signature=_l_sig(['X', 'Y']), replay=_l_real_replay(['X', 'Y']))
 def launchers_xy_k1(stale_x: int, first: int, p1: int) -> bool:
     """
     pre: 0 <= stale_x <= 2 and 0 <= first <= 1 and 0 <= p1 <= 90
@@ -588,7 +723,7 @@ def launchers_xy_k1(stale_x: int, first: int, p1: int) -> bool:
 
 
 @cond(q=150, t=400, engine="coop", encoded=[ln.launch, ln.gc_state_dir], stubs=["FileLock := one mutex per lock path", "_probe/_spawn_worker/state dir := in-memory world with live workers that never exit"],
-      bound=_LB % ("Y, X", 1), signature=_l_sig(['Y', 'X']))
+      bound=_LB % ("Y, X", 1), signature=_l_sig(['Y', 'X']), replay=_l_real_replay(['Y', 'X']))
 def launchers_yx_stale_k1(stale_x: int, first: int, p1: int) -> bool:
     """
     pre: 0 <= stale_x <= 2 and 0 <= first <= 1 and 0 <= p1 <= 90
@@ -599,7 +734,7 @@ def launchers_yx_stale_k1(stale_x: int, first: int, p1: int) -> bool:
 
 
 @cond(q=150, t=1500, tiers=("thorough",), engine="coop", encoded=[ln.launch, ln.gc_state_dir], stubs=["FileLock := one mutex per lock path", "_probe/_spawn_worker/state dir := in-memory world with live workers that never exit"],
-      bound=_LB % ("X, X, Y", 1), signature=_l_sig(["X", "X", "Y"]))
+      bound=_LB % ("X, X, Y", 1), signature=_l_sig(["X", "X", "Y"]), replay=_l_real_replay(["X", "X", "Y"]))
 def launchers_xxy_k1(stale_x: int, first: int, p1: int, t1: int) -> bool:
     """
     pre: 0 <= stale_x <= 2 and 0 <= first <= 2 and 0 <= t1 <= 2 and 0 <= p1 <= 110
@@ -610,7 +745,7 @@ def launchers_xxy_k1(stale_x: int, first: int, p1: int, t1: int) -> bool:
 
 
 @cond(q=150, t=3000, tiers=("thorough",), engine="coop", encoded=[ln.launch, ln.gc_state_dir], stubs=["FileLock := one mutex per lock path", "_probe/_spawn_worker/state dir := in-memory world with live workers that never exit"],
-      bound=_LB % ("X, Y", 2), signature=_l_sig(["X", "Y"]))
+      bound=_LB % ("X, Y", 2), signature=_l_sig(["X", "Y"]), replay=_l_real_replay(["X", "Y"]))
 def launchers_xy_k2(stale_x: int, first: int, p1: int, p2: int) -> bool:
     """
     pre: 0 <= stale_x <= 2 and 0 <= first <= 1 and 0 <= p1 < p2 <= 90
